@@ -232,7 +232,8 @@ def expand(job):
                 continue
             case_ = {"mode": sp, "rec": desc, "kind": "text"}
             # (exact intervals only: month/year steps from the UTC spelling of the anchor are other dates than from the local one)
-            if recur.parseable(desc) and desc["fmt"] != 1 and recur.is_exact(desc["d"]) and not desc["a"].get("dec") and rnd.random() < 0.3:
+            if recur.parseable(desc) and desc["fmt"] != 1 and recur.is_exact(desc["d"]) and not desc["a"].get("dec") \
+                    and 2 <= desc["a"]["y"] <= 9997 and rnd.random() < 0.3:       # (away from the years a "...Z" format cannot print)
                 case_["zfmt"] = rnd.choice([1, 2])
                 z_ = rnd.choice([(0, -30), (0, 45), (-3, -30), (5, 30), (0, 0), (1, 0)])
                 case_["rec"] = dict(desc, a=dict(desc["a"], zh=z_[0], zm=z_[1]))
